@@ -3,7 +3,7 @@ import collections
 import numpy as np
 from hypothesis import strategies as st
 from vf import gens
-from vf.runner import hyp_run, run_cases, guard, fail, exc_failure
+from vf.runner import hyp_run, run_cases, guard, fail, exc_failure, snapshot, written
 
 THOROUGH_SCALE = 5      # multiplies every generated-case budget of the thorough tier
 RULE = ("dense images uint16/uint32/float32, shapes 1x1..64x64 (plus 2x65534 and 65534x2 in the thorough tier) x "
@@ -311,6 +311,7 @@ def check_ov(case, rec=None):
                 c1, c2 = m[c1].astype(np.uint16), m[c2].astype(np.uint16)
             bigshape[axis] = 65534          # the largest shape a uint16 indexed frame accepts
     bigshape = tuple(bigshape)
+    snap = snapshot(r1=r1, c1=c1, l1=l1, r2=r2, c2=c2, l2=l2)
 
     def cmp(name, n, rcl):
         got = collections.Counter()
@@ -355,6 +356,8 @@ def check_ov(case, rec=None):
         cmp("overlaps_matrix(realloc)", r[0], r[1])
     else:
         fails.append(exc_failure("overlaps_matrix(realloc)", r))
+    for nm in written(snap, r1=r1, c1=c1, l1=l1, r2=r2, c2=c2, l2=l2):
+        fails.append(fail("inputs", "the overlap routines modified the %s array they were given" % nm, fn="inputs"))
     # overlaps() on frames
     f1 = sparseframe.sparse_frame(r1, c1, bigshape, pixels={"lab": l1.copy()})
     f1.meta["lab"] = {"nlabel": n1}
